@@ -5,8 +5,8 @@
 //! subtracted, so that a read outside the region shows up as an out-of-range (or negative) index.
 //!
 //!   new <dw> <dh>                                  -> "<wmask> <hmask>" | panic   (via Debug of the sampler)
-//!   abs <rep|cl|on> <b|s> <dw> <dh> <u> <v>        -> "<u>,<v>" | panic
-//!   rel <rep|cl|on> <b|s> <dw> <dh> <u> <v>        -> R A, each "<u>,<v>" | panic:<msg>
+//!   abs <rep|cl|on> <b|s|n|v> <dw> <dh> <u> <v>        -> "<u>,<v>" | panic
+//!   rel <rep|cl|on> <b|s|n|v> <dw> <dh> <u> <v>        -> R A, each "<u>,<v>" | panic:<msg>
 //!   dig <rep|cl|on> <dw> <dh> <v> <start> <count>  -> "<fnv> <npanic> <noob> <nwrong>"
 //!   sib <fallback|libm|mm> <rep|cl> <dw> <dh> <u> <v> -> "<u>,<v>" | panic   (sample_abs in that configuration)
 use std::cell::RefCell;
@@ -30,27 +30,56 @@ enum Tex {
 }
 
 thread_local! {
-    static CACHE: RefCell<HashMap<(bool, u32, u32), &'static Tex>> = RefCell::new(HashMap::new());
+    static CACHE: RefCell<HashMap<(char, u32, u32), &'static Tex>> = RefCell::new(HashMap::new());
 }
 
-fn make_tex(sliced: bool, dw: u32, dh: u32) -> &'static Tex {
+/// Texture of `dw` x `dh` texels of kind
+///   b  owned `Buf2`
+///   s  sub-region `buf.slice(r)` of a larger buffer (margins on every side)
+///   n  nested sub-region `buf.slice(r1).slice(r2)` (atlas -> page -> sprite): the page is narrower
+///      than its backing store, so the sprite must inherit the *stride*, not the page width
+///   v  `Slice2::new(dims, stride, data)` over raw data with stride > width
+/// Every texel holds its coordinates in the backing store; the region's origin is subtracted.
+fn make_tex(kind: &str, dw: u32, dh: u32) -> &'static Tex {
+    let kind = kind.chars().next().unwrap_or('b');
     CACHE.with(|c| {
-        if let Some(t) = c.borrow().get(&(sliced, dw, dh)) {
+        if let Some(t) = c.borrow().get(&(kind, dw, dh)) {
             return *t;
         }
         let enc = |x: u32, y: u32| ((x as u64) << 32) | y as u64;
-        let t: Tex = if !sliced {
-            Tex::Owned(Texture::from(Buf2::new_with((dw, dh), enc)))
-        } else {
-            // region at (ox, oy) of a buffer with a margin on every side
-            let (ox, oy) = (1 + dw % 3, 2 + dh % 2);
-            let big: &'static Buf2<Texel> =
-                Box::leak(Box::new(Buf2::new_with((dw + ox + 3, dh + oy + 2), enc)));
-            let s = big.slice((ox..ox + dw, oy..oy + dh));
-            Tex::Sliced(Texture::from(s), (ox, oy))
+        let t: Tex = match kind {
+            'b' => Tex::Owned(Texture::from(Buf2::new_with((dw, dh), enc))),
+            's' => {
+                // region at (ox, oy) of a buffer with a margin on every side
+                let (ox, oy) = (1 + dw % 3, 2 + dh % 2);
+                let big: &'static Buf2<Texel> =
+                    Box::leak(Box::new(Buf2::new_with((dw + ox + 3, dh + oy + 2), enc)));
+                let s = big.slice((ox..ox + dw, oy..oy + dh));
+                Tex::Sliced(Texture::from(s), (ox, oy))
+            }
+            'n' => {
+                // atlas (wide) -> page at (px, py), narrower than the atlas -> sprite at (sx, sy) in the page
+                let (px, py) = (2 + dh % 3, 1 + dw % 2);
+                let (sx, sy) = (1 + dw % 2, 2);
+                let (pw, ph) = (dw + sx + 2, dh + sy + 1);
+                let atlas: &'static Buf2<Texel> =
+                    Box::leak(Box::new(Buf2::new_with((pw + px + 4, ph + py + 2), enc)));
+                let page: &'static Slice2<'static, Texel> =
+                    Box::leak(Box::new(atlas.slice((px..px + pw, py..py + ph))));
+                let sprite = page.slice((sx..sx + dw, sy..sy + dh));
+                Tex::Sliced(Texture::from(sprite), (px + sx, py + sy))
+            }
+            'v' => {
+                let stride = dw + 5;
+                let data: &'static Vec<Texel> = Box::leak(Box::new(
+                    (0..stride as u64 * dh.max(1) as u64).map(|i| enc((i % stride as u64) as u32, (i / stride as u64) as u32)).collect(),
+                ));
+                Tex::Sliced(Texture::from(Slice2::new((dw, dh), stride, data)), (0, 0))
+            }
+            other => panic!("unknown texture kind {other}"),
         };
         let t: &'static Tex = Box::leak(Box::new(t));
-        c.borrow_mut().insert((sliced, dw, dh), t);
+        c.borrow_mut().insert((kind, dw, dh), t);
         t
     })
 }
@@ -131,7 +160,7 @@ fn run(t: &[&str]) -> String {
     match t[0] {
         "new" => {
             let (dw, dh) = (pint(t[1]) as u32, pint(t[2]) as u32);
-            let tex = make_tex(false, dw, dh);
+            let tex = make_tex("b", dw, dh);
             let s = match tex {
                 Tex::Owned(tex) => SamplerRepeatPot::new(tex),
                 Tex::Sliced(tex, _) => SamplerRepeatPot::new(tex),
@@ -146,12 +175,12 @@ fn run(t: &[&str]) -> String {
             nums.join(" ")
         }
         "abs" => {
-            let tex = make_tex(t[2] == "s", pint(t[3]) as u32, pint(t[4]) as u32);
+            let tex = make_tex(t[2], pint(t[3]) as u32, pint(t[4]) as u32);
             let (u, v) = sample(t[1], tex, uv(pf32(t[5]), pf32(t[6])), false);
             format!("{u},{v}")
         }
         "rel" => {
-            let tex = make_tex(t[2] == "s", pint(t[3]) as u32, pint(t[4]) as u32);
+            let tex = make_tex(t[2], pint(t[3]) as u32, pint(t[4]) as u32);
             let (u, v) = (pf32(t[5]), pf32(t[6]));
             let (w, h) = dims_f32(tex);
             let r = caught(|| sample(t[1], tex, uv(u, v), true));
@@ -160,7 +189,7 @@ fn run(t: &[&str]) -> String {
         }
         "dig" => {
             let (dw, dh) = (pint(t[2]) as u32, pint(t[3]) as u32);
-            let tex = make_tex(false, dw, dh);
+            let tex = make_tex("b", dw, dh);
             let v = pf32(t[4]);
             let start = pu64h(t[5]);
             let count = pint(t[6]) as u64;
@@ -303,7 +332,7 @@ fn gen(rng: &mut Rng, tier: Tier, out: &mut Vec<String>) {
     }
 
     let emit = |rng: &mut Rng, out: &mut Vec<String>, smp: &str, dw: u32, dh: u32| {
-        for kind in ["b", "s"] {
+        for kind in ["b", "s", "n", "v"] {
             let pu = coord_pool(rng, dw, nrand);
             let pv = coord_pool(rng, dh, nrand);
             for (i, &u) in pu.iter().enumerate() {
